@@ -344,6 +344,15 @@ def check_min_group_law():
         res = run_simple(add_it, [el(P), el(ident)])
         g = res[0].mul(P[1]).sub(P[0].mul(res[1]))
         st, dt, info = certificate(g, inv_hyps(P)); obs.append(Ob('min:P + IDENTITY == P (crate equality)', st if st == 'proved' else 'violated', info, dt, 'cofactor certificate + z3 identity', None, {'kind': 'law', 'form': 'neutral'}))
+        # completeness (necessary condition): the formula must not degenerate where dedicated (non-unified) addition formulas do -
+        # on the diagonal Q = P, on Q = -P, and on the other coset representative Q = P + (0,-1) = (-X, -Y, Z, T).  A unified
+        # formula has Z3 = (Z1^2 Z2^2)^2 - (d X1X2Y1Y2)^2 != 0 there; a dedicated one gives Z3 = 0 identically on the curve.
+        for tag, Q2 in (('Q = P', P), ('Q = -P', [P[0].neg(), P[1], P[2], P[3].neg()]), ('Q = P + T2', [P[0].neg(), P[1].neg(), P[2], P[3]])):
+            res = run_simple(add_it, [el(P), el(Q2)])
+            st, dt, info = certificate(res[2], inv_hyps(P) + [curve_hyp(P)])
+            degenerate = st == 'proved' or res[2].is_zero_poly()
+            obs.append(Ob(f'min:Add does not degenerate on {tag} (Z3 is not identically zero on the curve)', 'violated' if degenerate else 'proved', 'Z3 lies in the ideal of the curve: the sum of a point and this partner is (0:0:0:0) for every P' if degenerate else 'Z3 is not in the ideal of the curve relations',
+                          dt, 'cofactor certificate search (Buchberger), z3-checked when found', None, {'kind': 'law', 'form': 'Add-degenerate'} if degenerate else None))
         negP = [P[0].neg(), P[1], P[2], P[3].neg()]
         res = run_simple(add_it, [el(P), el(negP)])
         st, dt, info = certificate(res[0], inv_hyps(P)); obs.append(Ob('min:P + (-P) has X = 0 (is the identity)', st if st == 'proved' else 'violated', info, dt, 'cofactor certificate + z3 identity', None, {'kind': 'law', 'form': 'inverse'}))
